@@ -290,20 +290,19 @@ def make_sim(ids, nodeids):
 
 def cases(tier, seed):
     out = [{"part": "format"}, {"part": "scanner", "order": "fwd"}, {"part": "scanner", "order": "rev"},
-           {"part": "scanner", "order": "ext"}]
-    if tier == "quick":
-        out.append({"part": "bfs", "ids": [0x000, 0x585], "nodeids": [5], "depth": None})
+           {"part": "scanner", "order": "ext"}, {"part": "reentrant"}]
+    for op in ("del-node", "unsub-a", "unsub-b", "replace-node"):
+        out.append({"part": "concurrent", "op": op, "P": 1 if tier == "quick" else 2})
     out.append({"part": "bfs", "ids": [0x000, 0x585, 0x181], "nodeids": [5, 6], "depth": 3 if tier == "quick" else 4})
     return out
 
 
 def run_main(tier, seed, jobs, st):
-    if tier != "thorough":
-        return
-    S = make_sim([0x000, 0x585], [5, 6])
+    nodeids = [5] if tier == "quick" else [5, 6]
+    S = make_sim([0x000, 0x585], nodeids)
     res = kernel.bfs_parallel(S, apply, lambda s: s.enabled(), lambda s: s.canon(), jobs=jobs,
                               terminal=lambda sim, v: bool(v), max_states=300000)
-    _merge(res, st, {"part": "bfs", "ids": [0x000, 0x585], "nodeids": [5, 6], "depth": None})
+    _merge(res, st, {"part": "bfs", "ids": [0x000, 0x585], "nodeids": nodeids, "depth": None})
 
 
 def _merge(res, st, case):
@@ -324,7 +323,155 @@ def _merge(res, st, case):
     st.sample({"bfs": case, "states": res["states"], "transitions": res["transitions"], "closed": res["closed"]})
 
 
+def run_reentrant(case, st):
+    """Callbacks that subscribe / unsubscribe while a frame is being delivered: the frame still reaches exactly the
+    callbacks that were subscribed when it was received, once each, in subscription order."""
+    import itertools
+    import canopen
+    actions = ("none", "unsub-self", "unsub-next", "unsub-prev", "sub-new", "unsub-all-others")
+    for k in (1, 2, 3):
+        for combo in itertools.product(actions, repeat=k):
+            if "combo" in case and list(combo) != case["combo"]:
+                continue
+            net = canopen.Network()
+            log = []
+            cbs = []
+
+            def extra(cid, data, ts):
+                log.append("new")
+
+            def mk(i):
+                def cb(cid, data, ts):
+                    log.append(i)
+                    act = combo[i]
+                    try:
+                        if act == "unsub-self":
+                            net.unsubscribe(0x123, cbs[i])
+                        elif act == "unsub-next" and i + 1 < k:
+                            net.unsubscribe(0x123, cbs[i + 1])
+                        elif act == "unsub-prev" and i > 0:
+                            net.unsubscribe(0x123, cbs[i - 1])
+                        elif act == "sub-new":
+                            net.subscribe(0x123, extra)
+                        elif act == "unsub-all-others":
+                            for j in range(k):
+                                if j != i and cbs[j] in net.subscribers.get(0x123, []):
+                                    net.unsubscribe(0x123, cbs[j])
+                    except ValueError:
+                        pass
+                return cb
+            cbs.extend(mk(i) for i in range(k))
+            for cb in cbs:
+                net.subscribe(0x123, cb)
+            st.evaluations += 1
+            st.transitions += 1
+            if any(a != "none" for a in combo):
+                st.nontrivial.add(("reentrant", combo))
+            rc = dict(case, combo=list(combo))
+            try:
+                net.notify(0x123, bytearray(b"\x01"), 1.0)
+            except Exception as e:  # noqa: BLE001
+                st.violation(f"C10:reentrant:raises:{type(e).__name__}", rc, "frame delivered", repr(e)[:100])
+                continue
+            want = list(range(k))
+            if log != want:
+                kind = "skipped" if len(log) < len(want) else ("delivered-to-late-subscriber" if "new" in log else "order")
+                st.violation(f"C10:reentrant:{kind}", rc, want, log)
+            else:
+                st.outcome("reentrant ok")
+            # the next frame reaches exactly the callbacks subscribed now
+            now = [("new" if c is extra else cbs.index(c)) for c in net.subscribers.get(0x123, [])]
+            del log[:]
+            acts_off = True
+            combo_saved, combo = combo, tuple("none" for _ in combo)
+            try:
+                net.notify(0x123, bytearray(b"\x02"), 2.0)
+            except Exception as e:  # noqa: BLE001
+                st.violation(f"C10:reentrant:next-frame-raises:{type(e).__name__}", rc, now, repr(e)[:100])
+            if log != now:
+                st.violation("C10:reentrant:next-frame", rc, now, log)
+            combo = combo_saved
+    st.states += 1
+    st.sample({"reentrant": "callbacks changing the subscription during delivery", "max callbacks": 3})
+
+
+def run_concurrent(case, st):
+    """The receive thread dispatches a frame while the application thread changes the subscriptions of the same id:
+    every callback that stays subscribed throughout must be invoked exactly once (line-level schedule exploration)."""
+    import os
+    import canopen
+    from mc import vsched
+    root = os.path.dirname(os.path.abspath(canopen.__file__))
+    op = case["op"]
+
+    def harness(s):
+        net = canopen.Network()
+        simenv.SimBus("inline").attach(net, "n")
+        log = []
+        a, b, c = Rec("a", log), Rec("b", log), Rec("c", log)
+        n5 = net.add_node(canopen.RemoteNode(5, od()))
+        net.subscribe(0, a)
+        n6 = net.add_node(canopen.RemoteNode(6, od()))
+        net.subscribe(0, b)
+        net.subscribe(0, c)
+
+        def receiver():
+            net.notify(0, bytearray([1, 0]), 7.0)             # NMT start, broadcast
+
+        spare = canopen.RemoteNode(5, od())      # built outside the scheduled threads (its constructor is not the subject)
+
+        def app():
+            if op == "del-node":
+                del net[5]
+            elif op == "unsub-a":
+                net.unsubscribe(0, a)
+            elif op == "unsub-b":
+                net.unsubscribe(0, b)
+            elif op == "replace-node":
+                net.add_node(spare)
+        s.spawn(receiver, "receiver")
+        s.spawn(app, "app")
+        return lambda: (tuple(x[0] for x in log), n6.nmt._state, s.deadlock)
+
+    def on_exec(s, out):
+        log, st6, deadlock = out
+        st.evaluations += 1
+        st.traces += 1
+        st.transitions += len(s.trace)
+        if s.pre:
+            st.nontrivial_n += 1
+        rc = dict(case, schedule=[t[1] for t in s.trace])
+        stay = [x for x in "abc" if not (op == "unsub-a" and x == "a") and not (op == "unsub-b" and x == "b")]
+        probs = []
+        for x in stay:
+            if log.count(x) != 1:
+                probs.append(f"callback {x} invoked {log.count(x)} times")
+        if st6 != 5:
+            probs.append(f"node 6 (untouched) missed the NMT broadcast: state {st6}")
+        if deadlock:
+            probs.append(f"deadlock {deadlock}")
+        if probs:
+            st.violation(f"C10:concurrent:{op}:handler-skipped", rc, "every handler that stays subscribed sees the frame once", probs)
+        st.outcome(f"concurrent {op}: {'ok' if not probs else 'bad'}")
+
+    if "schedule" in case:
+        simenv.new_world()
+        s = vsched.Scheduler(case["schedule"], line_root=root, horizon=20000)
+        result = harness(s)
+        s.run()
+        on_exec(s, result())
+        return
+    stats = vsched.explore_schedules(harness, case["P"], on_exec=on_exec, line_root=root, horizon=20000)
+    st.states += stats["executions"]
+    st.count("line_level_schedules", stats["executions"])
+    st.sample({"concurrent": case, "schedules": stats["executions"], "points": stats["max_points"]}, cap=8)
+
+
 def run_case(case, st):
+    if case["part"] == "reentrant":
+        return run_reentrant(case, st)
+    if case["part"] == "concurrent":
+        return run_concurrent(case, st)
     if case["part"] == "bfs":
         S = make_sim(case["ids"], case["nodeids"])
         if "hist" in case:
